@@ -115,6 +115,7 @@ def slices(prop, tier, seed):
     elif prop == "C02":
         S += dag(g, g3, seed, th)
         S.append(("S-cond", W.s_cond(gp, seed)))
+        S.append(("S-cond-xparent", W.s_cond(gp, seed, only=("xparent",))))
         S.append(("S-plan", W.s_plan(pp if th else pp_small, seed,
                                      max_n=3 if th else 2)))
         S.append(("S-time", W.s_time({"EDF": gp["EDF"]} if not th else gp, seed,
